@@ -100,6 +100,26 @@ class Program:
     def env_of(self, s: Any) -> Any:
         return getattr(s, "envelope", None)
 
+    def block_dim(self, s: Any) -> int:
+        """product of the dimensions of everything stored together with s"""
+        idx = getattr(s, "index", None)
+        try:
+            if isinstance(idx, int):
+                e = self.env_of(s)
+                return int(e.fock.dimensions) * int(e.polarization.dimensions)
+            if isinstance(idx, (tuple, list)):
+                h = self.handle_of(s)
+                d = 1
+                for o in h.states[idx[0]].state_objs:
+                    d *= max(int(o.dimensions), 1)
+                return d
+        except Exception:  # noqa: BLE001
+            return 1 << 30
+        return max(int(getattr(s, "dimensions", 1)), 1)
+
+    def heavy(self, s: Any) -> bool:
+        return int(getattr(s, "dimensions", 1)) > 24 or self.block_dim(s) > 1500
+
     def handle_of(self, s: Any) -> Any:
         h = getattr(s, "composite_envelope", None)
         if h is not None:
@@ -148,6 +168,10 @@ class Program:
             c = r.choice(["cre", "ann", "ps", "disp", "sq", "id", "expr"])
             if PROFILE == "fock":       # automatic cutoffs: larger, negative and complex parameters
                 c = r.choice(["cre", "ann", "ps", "disp", "disp", "disp", "sq", "sq", "id"])
+            if self.heavy(s) and c in ("cre", "disp", "sq", "expr"):
+                # cutoffs only grow: a mode that is already large (or sits in a large block) gets no more photons,
+                # otherwise long programs end up with matrices of many GB
+                c = r.choice(["ann", "ps", "id"])
             if c == "cre":
                 op = T["Op"](T["F"].Creation)
             elif c == "ann":
@@ -243,6 +267,8 @@ class Program:
         c = r.choice(["bs", "cx", "cz", "swap", "cswap", "kron"])
         if c == "bs":
             t = self.same_composite(live, "F", 2)
+            if t and (max(int(t[0].dimensions), 1) * max(int(t[1].dimensions), 1) > 400 or any(self.heavy(x) for x in t)):
+                return
             op = T["Op"](T["C"].NonPolarizingBeamSplitter, eta=r.uniform(-4, 4))
         elif c in ("cx", "cz", "swap"):
             t = self.same_composite(live, "P", 2)
